@@ -163,6 +163,23 @@ Section Procs.
     apply good_bind; [apply good_clear|]. intros _. apply good_flush_list.
   Qed.
 
+  Lemma good_emit_all l : Good it (emit_all Never l) (emit_all it l).
+  Proof.
+    induction l as [|e l IH]; cbn [emit_all]; [apply good_ret|].
+    apply good_bind; [apply good_emit; exact Hit|]. intros _. exact IH.
+  Qed.
+
+  Lemma good_send_imports : Good it (send_imports c Never inp) (send_imports c it inp).
+  Proof. unfold send_imports. destruct (c_cb c && c_ev_import c); [apply good_emit_all|apply good_ret]. Qed.
+
+  Lemma good_ac_phase hits : Good it (ac_phase c Never hits) (ac_phase c it hits).
+  Proof.
+    induction hits as [|lim hits IH]; cbn [ac_phase]; [apply good_ret|].
+    apply good_bind; [apply good_tick; exact Hit|]. intros _.
+    apply good_bind; [|intros _; exact IH].
+    destruct (c_cb c && c_ev_limit c); [apply good_emit_all|apply good_ret].
+  Qed.
+
   Lemma good_eval_rule_inner x r cb : Good it (eval_rule_inner c Never inp x r cb) (eval_rule_inner c it inp x r cb).
   Proof.
     unfold eval_rule_inner.
@@ -207,7 +224,8 @@ Section Procs.
   Lemma good_full_scan sc : Good it (full_scan c Never inp sc) (full_scan c it inp sc).
   Proof.
     unfold full_scan.
-    apply good_bind; [apply good_tick; exact Hit|]. intros _.
+    apply good_bind; [apply good_ac_phase|]. intros _.
+    apply good_bind; [destruct (c_direct c); [apply good_ret|apply good_send_imports]|]. intros _.
     apply good_bind; [apply good_eval_globals|]. intros [x u].
     apply good_bind; [apply good_fixup|]. intros _.
     destruct (negb (c_nm c) && all_disabled x); [apply good_clear|].
@@ -250,13 +268,26 @@ Lemma good_do_scan_abort c k inp sc :
   Good (AbortAt k) (do_scan c Never inp sc) (do_scan c (AbortAt k) inp sc).
 Proof.
   assert (Hit : AbortAt k <> Never) by discriminate.
-  unfold do_scan. destruct (can_noscan c); [|apply good_full_scan; exact Hit].
+  unfold do_scan.
+  apply good_bind; [destruct (c_direct c); [apply good_send_imports; exact Hit|apply good_ret]|]. intros _.
+  destruct (can_noscan c); [|apply good_full_scan; exact Hit].
   apply good_bind.
   - apply good_on_timeout_abort. apply good_eval_without_matches. exact Hit.
   - intros [|].
     + apply good_flush. exact Hit.
     + apply good_bind; [apply good_clear|]. intros _. apply good_full_scan. exact Hit.
 Qed.
+
+Lemma good_do_scan_full c it inp sc : it <> Never -> can_noscan c = false ->
+  Good it (do_scan c Never inp sc) (do_scan c it inp sc).
+Proof.
+  intros Hit Hns. unfold do_scan. rewrite Hns.
+  apply good_bind; [destruct (c_direct c); [apply good_send_imports; exact Hit|apply good_ret]|]. intros _.
+  apply good_full_scan. exact Hit.
+Qed.
+
+Lemma nlen_cons' {A} (x : A) l : nlen (x :: l) = 1 + nlen l.
+Proof. unfold nlen. cbn [length]. lia. Qed.
 
 Lemma rev_prefix {A} (newer old : list A) : firstn (length old) (rev (newer ++ old)) = rev old.
 Proof.
@@ -293,15 +324,15 @@ Theorem timeout_prefix_full c j inp sc : can_noscan c = false -> 1 <= j ->
   \/ (o_err oT = Some ETimeout /\ o_checks oT = j
       /\ exists later, o_events oN = o_events oT ++ later).
 Proof.
-  intros Hns Hj oN oT. subst oN oT. unfold run_scan, do_scan. rewrite Hns.
-  destruct (good_full_scan c (TimeoutAt j) ltac:(discriminate) inp sc) as [_ S].
+  intros Hns Hj oN oT. subst oN oT. unfold run_scan.
+  destruct (good_do_scan_full c (TimeoutAt j) inp sc ltac:(discriminate) Hns) as [_ S].
   specialize (S {| pend := []; evs := []; nchecks := 0 |}). cbn [insync nchecks] in S.
   specialize (S ltac:(lia)).
   destruct S as [[Hs1 Eq]|[Er [Hat [_ [n En]]]]].
-  - left. rewrite Eq. destruct (full_scan c Never inp sc _) as [s1 r1]. cbn [fst] in Hs1. cbn [o_checks].
+  - left. rewrite Eq. destruct (do_scan c Never inp sc _) as [s1 r1]. cbn [fst] in Hs1. cbn [o_checks].
     split; [reflexivity|exact Hs1].
-  - right. destruct (full_scan c (TimeoutAt j) inp sc _) as [s2 r2].
-    destruct (full_scan c Never inp sc _) as [s1 r1]. cbn [fst snd ierr atpoint] in *. subst r2.
+  - right. destruct (do_scan c (TimeoutAt j) inp sc _) as [s2 r2].
+    destruct (do_scan c Never inp sc _) as [s1 r1]. cbn [fst snd ierr atpoint] in *. subst r2.
     cbn [o_err o_events o_checks]. split; [reflexivity|]. split; [exact Hat|].
     exists (rev n). rewrite En. apply rev_app_distr.
 Qed.
@@ -422,36 +453,71 @@ Section ProcsP.
   Qed.
 End ProcsP.
 
-(* state after the string scan and the evaluation of the global rules, uninterrupted *)
-Definition after_globals (c : cfg) (inp : inputs) (sc : scanner) : sstate :=
-  fst (eval_globals c Never inp (ctx0 sc (Some (i_matches inp))) (s_globals sc) false
-         {| pend := []; evs := []; nchecks := i_ac_checks inp |}).
+(* the pending list is untouched by the string scan and the import events *)
+Definition PendSame {A} (m : M A) : Prop := forall s, pend (fst (m s)) = pend s.
 
-Lemma tick_never_state n : fst (tick Never n {| pend := []; evs := []; nchecks := 0 |})
-                           = {| pend := []; evs := []; nchecks := n |}.
+Lemma pendsame_ret {A} (a : A) : PendSame (ret a).
+Proof. intros s. reflexivity. Qed.
+Lemma pendsame_bind {A B} (m : M A) (f : A -> M B) : PendSame m -> (forall a, PendSame (f a)) -> PendSame (bindM m f).
 Proof.
-  unfold tick. destruct (N.eqb_spec n 0) as [->|E]; cbn [fst]; [reflexivity|].
-  cbn [pend evs nchecks]. f_equal.
+  intros Hm Hf s. unfold bindM. specialize (Hm s). destruct (m s) as [s1 [a|e]]; cbn [fst] in *; [|exact Hm].
+  rewrite (Hf a s1). exact Hm.
+Qed.
+Lemma pendsame_tick it n : PendSame (tick it n).
+Proof.
+  intros s. unfold tick. destruct (n =? 0); [reflexivity|]. destruct it as [|k|j]; try reflexivity.
+  destruct (j <=? nchecks s); [reflexivity|]. destruct (j <=? nchecks s + n); reflexivity.
+Qed.
+Lemma pendsame_emit it e : PendSame (emit it e).
+Proof. intros s. unfold emit. destruct it as [|k|j]; try reflexivity. cbn [evs]. destruct (_ =? k); reflexivity. Qed.
+Lemma pendsame_emit_all it l : PendSame (emit_all it l).
+Proof.
+  induction l as [|e l IH]; cbn [emit_all]; [apply pendsame_ret|].
+  apply pendsame_bind; [apply pendsame_emit|intros _; exact IH].
+Qed.
+Lemma pendsame_send_imports c it inp : PendSame (send_imports c it inp).
+Proof. unfold send_imports. destruct (_ && _); [apply pendsame_emit_all|apply pendsame_ret]. Qed.
+Lemma pendsame_ac_phase c it hits : PendSame (ac_phase c it hits).
+Proof.
+  induction hits as [|lim hits IH]; cbn [ac_phase]; [apply pendsame_ret|].
+  apply pendsame_bind; [apply pendsame_tick|]. intros _.
+  apply pendsame_bind; [destruct (_ && _); [apply pendsame_emit_all|apply pendsame_ret]|intros _; exact IH].
 Qed.
 
-Lemma tick_never_ok n s : snd (tick Never n s) = inl tt.
-Proof. unfold tick. destruct (n =? 0); reflexivity. Qed.
-
-Lemma tick_fires j n : 1 <= j -> j <= n ->
-  tick (TimeoutAt j) n {| pend := []; evs := []; nchecks := 0 |}
-  = ({| pend := []; evs := []; nchecks := j |}, inr ETimeout).
+Lemma emit_all_never_checks l : forall s,
+  exists s', emit_all Never l s = (s', inl tt) /\ nchecks s' = nchecks s.
 Proof.
-  intros H1 H2. unfold tick. cbn [nchecks pend evs].
-  destruct (N.eqb_spec n 0); [lia|]. destruct (N.leb_spec j 0); [lia|].
-  destruct (N.leb_spec j (0 + n)); [reflexivity|lia].
+  induction l as [|e l IH]; intros s; cbn [emit_all]; [exists s; split; reflexivity|].
+  unfold bindM, emit.
+  destruct (IH {| pend := pend s; evs := e :: evs s; nchecks := nchecks s |}) as [s' [E Hn]].
+  exists s'. split; [exact E|exact Hn].
+Qed.
+
+Lemma ac_phase_never_checks c hits : forall s,
+  exists s', ac_phase c Never hits s = (s', inl tt) /\ nchecks s' = nchecks s + nlen hits.
+Proof.
+  induction hits as [|lim hits IH]; intros s; cbn [ac_phase].
+  - exists s. split; [reflexivity|]. unfold nlen. cbn. lia.
+  - unfold bindM, tick. replace (1 =? 0) with false by reflexivity.
+    set (s1 := {| pend := pend s; evs := evs s; nchecks := nchecks s + 1 |}).
+    destruct (c_cb c && c_ev_limit c).
+    + destruct (emit_all_never_checks (map EvLimit lim) s1) as [s2 [E2 Hn2]]. rewrite E2.
+      destruct (IH s2) as [s3 [E3 Hn3]]. exists s3. split; [exact E3|].
+      rewrite Hn3, Hn2. subst s1. cbn [nchecks]. rewrite nlen_cons'. lia.
+    + unfold ret. destruct (IH s1) as [s3 [E3 Hn3]]. exists s3. split; [exact E3|].
+      rewrite Hn3. subst s1. cbn [nchecks]. rewrite nlen_cons'. lia.
 Qed.
 
 Lemma bind_fail_first {A B} (m : M A) (k : A -> M B) s s' e :
   m s = (s', inr e) -> bindM m k s = (s', inr e).
 Proof. intros H. unfold bindM. rewrite H. reflexivity. Qed.
 
+Definition s_init : sstate := {| pend := []; evs := []; nchecks := 0 |}.
+
+Definition scan_p0 (c : cfg) (it : intr) (inp : inputs) : M unit := ac_phase c it (i_ac inp).
+
 Definition scan_p1 (c : cfg) (it : intr) (inp : inputs) (sc : scanner) : M (ectx * bool) :=
-  bindM (tick it (i_ac_checks inp))
+  bindM (if c_direct c then ret tt else send_imports c it inp)
         (fun _ : unit => eval_globals c it inp (ctx0 sc (Some (i_matches inp))) (s_globals sc) false).
 
 Definition scan_rest (c : cfg) (it : intr) (inp : inputs) (sc : scanner) (xu : ectx * bool) : M unit :=
@@ -461,13 +527,19 @@ Definition scan_rest (c : cfg) (it : intr) (inp : inputs) (sc : scanner) (xu : e
            bindM (eval_rules c it inp (fst xu) (s_rules sc) true) (fun _ : bool => ret tt))).
 
 Lemma full_scan_split c it inp sc s :
-  full_scan c it inp sc s = bindM (scan_p1 c it inp sc) (scan_rest c it inp sc) s.
+  full_scan c it inp sc s
+  = bindM (scan_p0 c it inp) (fun _ : unit => bindM (scan_p1 c it inp sc) (scan_rest c it inp sc)) s.
 Proof.
-  unfold full_scan, scan_p1, scan_rest, bindM.
-  destruct (tick it (i_ac_checks inp) s) as [st [u|e]]; [|reflexivity].
-  destruct (eval_globals c it inp (ctx0 sc (Some (i_matches inp))) (s_globals sc) false st) as [sg [[x u']|e]];
+  unfold full_scan, scan_p0, scan_p1, scan_rest, bindM.
+  destruct (ac_phase c it (i_ac inp) s) as [st [u|e]]; [|reflexivity].
+  destruct ((if c_direct c then ret tt else send_imports c it inp) st) as [si [u'|e]]; [|reflexivity].
+  destruct (eval_globals c it inp (ctx0 sc (Some (i_matches inp))) (s_globals sc) false si) as [sg [[x u'']|e]];
     reflexivity.
 Qed.
+
+(* state after the string scan and the evaluation of the global rules, uninterrupted *)
+Definition after_globals (c : cfg) (inp : inputs) (sc : scanner) : sstate :=
+  fst (bindM (scan_p0 c Never inp) (fun _ : unit => scan_p1 c Never inp sc) s_init).
 
 Lemma scan_rest_prefix c j inp sc xu sG :
   c_cb c = false -> nchecks sG < j ->
@@ -502,35 +574,49 @@ Theorem timeout_rules_prefix c j inp sc :
 Proof.
   intros Hns Hj Hwhere. unfold run_scan, do_scan. rewrite Hns.
   destruct (c_cb c) eqn:Hcb.
-  { destruct (full_scan c Never inp sc _) as [s1 r1]. destruct (full_scan c (TimeoutAt j) inp sc _) as [s2 r2].
+  { destruct (bindM _ _ _) as [s1 r1]. destruct (bindM _ _ _) as [s2 r2].
     cbn [o_rules]. exists []. reflexivity. }
   assert (Hit : TimeoutAt j <> Never) by discriminate.
-  set (s0 := {| pend := []; evs := []; nchecks := 0 |}).
+  fold s_init.
+  (* the import events of a direct scan are not sent to a list-API scan *)
+  assert (Himp : forall it, (if c_direct c then send_imports c it inp else ret tt) s_init = (s_init, inl tt)).
+  { intros it. unfold send_imports. rewrite Hcb. destruct (c_direct c); reflexivity. }
+  assert (Hdrop : forall it, bindM (if c_direct c then send_imports c it inp else ret tt)
+                                   (fun _ : unit => full_scan c it inp sc) s_init = full_scan c it inp sc s_init).
+  { intros it. unfold bindM. rewrite Himp. reflexivity. }
+  rewrite !Hdrop.
   rewrite !full_scan_split.
   destruct Hwhere as [Hac|Hafter].
   - (* fires during the string scan: nothing is pending yet *)
-    assert (E : scan_p1 c (TimeoutAt j) inp sc s0 = ({| pend := []; evs := []; nchecks := j |}, inr ETimeout)).
-    { unfold scan_p1. apply bind_fail_first. apply tick_fires; lia. }
-    rewrite (bind_fail_first _ _ _ _ _ E).
-    destruct (bindM (scan_p1 c Never inp sc) _ s0) as [s1 r1].
-    cbn [o_rules pend]. exists (pend s1). reflexivity.
+    destruct (good_ac_phase c (TimeoutAt j) Hit (i_ac inp)) as [_ S0].
+    specialize (S0 s_init ltac:(cbn; lia)).
+    destruct (ac_phase_never_checks c (i_ac inp) s_init) as [sN [EN Hn]].
+    pose proof (pendsame_ac_phase c (TimeoutAt j) (i_ac inp) s_init) as Hp.
+    destruct S0 as [[Hs1 _]|[Er _]].
+    + exfalso. cbn [insync] in Hs1. rewrite EN in Hs1. cbn [fst] in Hs1. rewrite Hn in Hs1.
+      unfold i_ac_checks in Hac. cbn [nchecks s_init] in Hs1. lia.
+    + destruct (ac_phase c (TimeoutAt j) (i_ac inp) s_init) as [s2 r2] eqn:E2. cbn [fst snd] in *. subst r2.
+      rewrite (bind_fail_first (scan_p0 c (TimeoutAt j) inp) _ s_init s2 ETimeout E2).
+      destruct (bindM (scan_p0 c Never inp) _ s_init) as [s1 r1].
+      cbn [o_rules]. rewrite Hp. cbn [pend s_init]. exists (pend s1). reflexivity.
   - (* fires after the global rules: both runs agree up to there *)
-    assert (HP1 : Good (TimeoutAt j) (scan_p1 c Never inp sc) (scan_p1 c (TimeoutAt j) inp sc)).
-    { unfold scan_p1. apply good_bind; [apply good_tick; exact Hit|]. intros _. apply good_eval_globals. exact Hit. }
-    assert (HsG : fst (scan_p1 c Never inp sc s0) = after_globals c inp sc).
-    { unfold scan_p1, bindM, after_globals. subst s0.
-      pose proof (tick_never_state (i_ac_checks inp)) as Et.
-      pose proof (tick_never_ok (i_ac_checks inp) {| pend := []; evs := []; nchecks := 0 |}) as Eo.
-      destruct (tick Never (i_ac_checks inp) _) as [st rt]. cbn [fst snd] in Et, Eo. subst st rt. reflexivity. }
-    destruct HP1 as [_ SP1]. specialize (SP1 s0 ltac:(subst s0; cbn; lia)).
-    assert (Esame : scan_p1 c (TimeoutAt j) inp sc s0 = scan_p1 c Never inp sc s0
-                    /\ nchecks (fst (scan_p1 c Never inp sc s0)) < j).
-    { destruct SP1 as [[Hs1 Eq]|[_ [Hat [Hck _]]]].
-      - split; [exact Eq|]. rewrite HsG. exact Hafter.
-      - exfalso. cbn [atpoint] in Hat. rewrite HsG in Hck. lia. }
-    destruct Esame as [Esame HsyncG]. clear SP1.
+    set (P := fun it => bindM (scan_p0 c it inp) (fun _ : unit => scan_p1 c it inp sc)).
+    assert (HP : Good (TimeoutAt j) (P Never) (P (TimeoutAt j))).
+    { unfold P, scan_p0, scan_p1. apply good_bind; [apply good_ac_phase; exact Hit|]. intros _.
+      apply good_bind; [destruct (c_direct c); [apply good_ret|apply good_send_imports; exact Hit]|]. intros _.
+      apply good_eval_globals. exact Hit. }
+    assert (Hassoc : forall it, bindM (scan_p0 c it inp) (fun _ : unit => bindM (scan_p1 c it inp sc) (scan_rest c it inp sc)) s_init
+                                = bindM (P it) (scan_rest c it inp sc) s_init).
+    { intros it. unfold P, bindM. destruct (scan_p0 c it inp s_init) as [st [u|e]]; reflexivity. }
+    rewrite !Hassoc.
+    destruct HP as [_ SP]. specialize (SP s_init ltac:(cbn; lia)).
+    assert (Esame : P (TimeoutAt j) s_init = P Never s_init /\ nchecks (fst (P Never s_init)) < j).
+    { destruct SP as [[Hs1 Eq]|[_ [Hat [Hck _]]]].
+      - split; [exact Eq|]. exact Hafter.
+      - exfalso. cbn [atpoint] in Hat. unfold after_globals in Hafter. fold (P Never) in Hafter. lia. }
+    destruct Esame as [Esame HsyncG]. clear SP.
     unfold bindM. rewrite Esame.
-    destruct (scan_p1 c Never inp sc s0) as [sG rG]. cbn [fst] in HsyncG.
+    destruct (P Never s_init) as [sG rG]. cbn [fst] in HsyncG.
     destruct rG as [xu|e]; [|cbn [o_rules]; exists []; symmetry; apply app_nil_r].
     destruct (scan_rest_prefix c j inp sc xu sG Hcb HsyncG) as [more Em].
     destruct (scan_rest c Never inp sc xu sG) as [s1 r1]. destruct (scan_rest c (TimeoutAt j) inp sc xu sG) as [s2 r2].
@@ -543,9 +629,9 @@ Definition kf15_scanner : scanner :=
                    {| r_ns := 0; r_id := 1; r_global := true; r_private := false; r_nvars := 0; r_cond := EBool false |}];
      s_rules := []; s_nns := 1 |}.
 Definition kf15_inputs : inputs :=
-  {| i_matches := []; i_ext := []; i_filesize := Some 2; i_mem := Some [97; 98]; i_ac_checks := 0 |}.
+  {| i_matches := []; i_ext := []; i_filesize := Some 2; i_mem := Some [97; 98]; i_ac := []; i_imports := [] |}.
 Definition kf15_cfg : cfg :=
-  {| c_full := true; c_nm := false; c_cb := false; c_ev_match := true; c_ev_nomatch := false; c_direct := true;
+  {| c_full := true; c_nm := false; c_cb := false; c_ev_match := true; c_ev_nomatch := false; c_ev_import := false; c_ev_limit := false; c_direct := true;
      c_frag_noscan := false |}.
 
 Lemma timeout_in_globals_refuted :
